@@ -437,6 +437,9 @@ func runHarness(pkgDir, harness string, loopBound, nval int, seed int64, maxPath
 	if len(validations) > 0 || len(cexs) > 0 {
 		rp := newReplayer(pkgDir)
 		defer rp.close()
+		if rp.err != "" {
+			res.Inconclusive = append(res.Inconclusive, "native twin could not be built, nothing was validated or replayed: "+firstLine(rp.err))
+		}
 		for _, v := range validations {
 			res.ValidationTried++
 			nr := rp.run(harness, modelJSON(v.c))
